@@ -1,5 +1,90 @@
-From Coq Require Import List String.
-From PAFC09 Require Import Model.
+(* C09 property theorems: statements only, each closed by `exact`.
+   Ws = the id-sorted walk (path, prior identity) of any model; tps = its tuple-prior paths; rows = the samples
+   handed to Sample.from_lists; fx / drop0 select the pinned code (false / true) or the proposed fixes. *)
+From Coq Require Import List String Bool Arith.
+From PAFC09 Require Import Model Lib Proofs1 Proofs2 Proofs3 Proofs4 Proofs5 Witness.
 Import ListNotations.
-Theorem C09_placeholder : split_dot "a.b" = ["a"; "b"]%string.
-Proof. exact eq_refl. Qed.
+
+(* every well-formed model tree (distinct "."-free attribute names per node, any nesting, sharing, tuples,
+   constants, any creation order) yields a walk that satisfies the hypotheses used below *)
+Theorem C09_shapes : forall t : node, wf_root t -> shape_ok (sorted_walk t).
+Proof. exact wf_shape_ok. Qed.
+
+(* samples in memory hold exactly the given rows: value per parameter, log-likelihood, log-prior, weight, in order *)
+Theorem C09_memory : forall (fx : bool) (V : Type) (Ws : list (path * nat)) (tps : list path) (rows : list (srow V)),
+  shape_ok Ws -> rows_ok Ws rows -> observe tps Ws (from_lists fx Ws rows) = Ok (expected rows).
+Proof. exact memory_claim. Qed.
+
+(* database rows (EfficientSamples): the reloaded sample list IS the persisted list -- every shape, both variants *)
+Theorem C09_roundtrip_db : forall (fx : bool) (V : Type) (Ws : list (path * nat)) (rows : list (srow V)),
+  shape_ok Ws -> rows_ok Ws rows -> db_roundtrip fx (from_lists fx Ws rows) = Ok (from_lists fx Ws rows).
+Proof. exact db_claim. Qed.
+
+(* samples.csv, full statement for the pinned code: REFUTED (mixed single-name / nested paths; also one Model
+   holding a tuple argument and a float argument) *)
+Theorem C09_loadable_refuted : ~ csv_claim false no_reserved.
+Proof. exact csv_refuted_mixed_depth. Qed.
+
+(* samples.csv, both variants: a top-level parameter named like a reserved column is lost: REFUTED *)
+Theorem C09_reserved_name_refuted : forall fx : bool, ~ csv_claim fx uniform_depth.
+Proof. exact csv_refuted_reserved. Qed.
+
+(* samples.csv, pinned code, under the guards excluding the two findings: same observables, loading succeeds *)
+Theorem C09_roundtrip_csv_partial : csv_claim false (fun Ws => uniform_depth Ws /\ no_reserved Ws).
+Proof. exact csv_partial_claim. Qed.
+
+(* ... and when every parameter is nested the reloaded list is identical to the persisted one *)
+Theorem C09_roundtrip_csv_nested : forall (fx : bool) (V cell : Type) (fmt : V -> cell) (parse : cell -> V) (add : V -> V -> V),
+  (forall v, parse (fmt v) = v) ->
+  forall (Ws : list (path * nat)) (tps : list path) (rows : list (srow V)),
+    shape_ok Ws -> all_nested Ws -> rows_ok Ws rows ->
+    csv_roundtrip fmt parse add fx tps Ws (from_lists fx Ws rows) = Ok (from_lists fx Ws rows).
+Proof. exact csv_nested_claim. Qed.
+
+(* samples.csv after the proposed key fix: every path depth *)
+Theorem C09_roundtrip_csv_fixed : csv_claim true no_reserved.
+Proof. exact csv_fixed_claim. Qed.
+
+(* summary JSON (max-likelihood / median sample): pinned key handling fails on mixed depth: REFUTED *)
+Theorem C09_summary_refuted : ~ summary_claim false false (fun _ => True).
+Proof. exact summary_refuted_mixed_depth. Qed.
+
+(* summary JSON: the falsy-value filter loses a parameter equal to 0.0 whatever the key handling: REFUTED *)
+Theorem C09_summary_zero_refuted : forall fx : bool,
+  exists (Ws : list (path * nat)) (r : srow nat),
+    shape_ok Ws /\ all_nested Ws /\ List.length (r_params r) = List.length (pids Ws) /\
+    param_list [] Ws (json_roundtrip nid nid nzero fx true (from_row fx Ws r)) <> Ok (r_params r).
+Proof. exact summary_refuted_zero. Qed.
+
+(* summary JSON under the guards (uniform depth; no zero value when the filter is present) *)
+Theorem C09_summary_partial : forall drop0 : bool, summary_claim false drop0 uniform_depth.
+Proof. exact summary_partial_claim. Qed.
+
+(* summary JSON after the key fix: every depth (no zero value when the filter is present; none needed after both fixes) *)
+Theorem C09_summary_fixed : forall drop0 : bool, summary_claim true drop0 (fun _ => True).
+Proof. exact summary_fixed_claim. Qed.
+
+(* therefore: equal observables give the same best-fit vector ... *)
+Theorem C09_best_fit : forall (V : Type) (gtb : V -> V -> bool) (Ws : list (path * nat)) (tps : list path)
+                              (S1 S2 : list (sample V)) (o : observed V),
+  observe tps Ws S1 = Ok o -> observe tps Ws S2 = Ok o -> best_vector gtb tps Ws S1 = best_vector gtb tps Ws S2.
+Proof. exact @same_observed_same_best. Qed.
+
+(* ... and the same value of any statistic of the columns (medians, errors at any sigma) *)
+Theorem C09_statistics : forall (V : Type) (Ws : list (path * nat)) (tps : list path) (A : Type) (stat : observed V -> A)
+                                (S1 S2 : list (sample V)) (o : observed V),
+  observe tps Ws S1 = Ok o -> observe tps Ws S2 = Ok o ->
+  res_bind (observe tps Ws S1) (fun x => Ok (stat x)) = res_bind (observe tps Ws S2) (fun x => Ok (stat x)).
+Proof. exact @same_observed_same_statistic. Qed.
+
+(* the minimised sample list stored by default in the database keeps the best-fit sample *)
+Theorem C09_minimise_keeps_best : forall (V : Type) (add : V -> V -> V) (gtb : V -> V -> bool) (S : list (sample V)) (s : sample V),
+  max_ll_sample gtb S = Some s -> In s (minimise add gtb S).
+Proof. exact @minimise_keeps_best. Qed.
+
+Print Assumptions C09_shapes.
+Print Assumptions C09_roundtrip_db.
+Print Assumptions C09_roundtrip_csv_partial.
+Print Assumptions C09_roundtrip_csv_fixed.
+Print Assumptions C09_loadable_refuted.
+Print Assumptions C09_summary_fixed.
